@@ -350,11 +350,23 @@ func handshakeTimeout(r *vh.Runner, c *vh.Case, i int) {
 			return []simnet.Delivery{{Data: d.Data, Src: d.Src, Dst: d.Dst}}
 		})
 		start := time.Now()
-		var errs [3]error
+		// three callers from the start, three that arrive when the handshake
+		// has just failed (or is failing) and never waited for it
+		var errs [6]error
 		var wg sync.WaitGroup
 		for k := range errs {
 			wg.Add(1)
-			go func(k int) { defer wg.Done(); errs[k] = cl.Handshake() }(k)
+			late := time.Duration(0)
+			if k >= 3 {
+				late = hsTimeout + time.Duration(rng.Pick(0, 0, 1, 1000, 1000000))
+			}
+			go func(k int) {
+				defer wg.Done()
+				if late > 0 {
+					time.Sleep(late)
+				}
+				errs[k] = cl.Handshake()
+			}(k)
 		}
 		done := bub.Go(wg.Wait)
 		returned := bub.Within(done, 3*hsTimeout+20*time.Second)
@@ -381,7 +393,7 @@ func handshakeTimeout(r *vh.Runner, c *vh.Case, i int) {
 		}
 		for _, e := range errs {
 			if fmt.Sprint(e) != fmt.Sprint(errs[0]) {
-				d["errors"] = []string{fmt.Sprint(errs[0]), fmt.Sprint(errs[1]), fmt.Sprint(errs[2])}
+				d["errors"] = fmt.Sprint(errs)
 				c.Violate("C17:concurrent-handshake-callers-get-different-results:"+mode, d)
 				return
 			}
